@@ -1,6 +1,7 @@
 package c02
 
 import (
+	"bytes"
 	"context"
 	"errors"
 	"fmt"
@@ -24,15 +25,59 @@ type Op struct {
 	Seq    uint64 `json:"seq,omitempty"`
 }
 
-// Case is a history over one connection.
+// Case is a history over one connection, or (Mode "transport") a history of calls through a real
+// Transport whose servers are killed and restarted.
 type Case struct {
-	Enc        string `json:"enc"`
-	DirectIO   bool   `json:"direct_io"`
-	Pipelining bool   `json:"pipelining"`
-	Ops        []Op   `json:"ops"`
+	Mode       string   `json:"mode,omitempty"` // "" | transport
+	Enc        string   `json:"enc"`
+	DirectIO   bool     `json:"direct_io"`
+	Pipelining bool     `json:"pipelining"`
+	Ops        []Op     `json:"ops,omitempty"`
+	TCfg       kit.TCfg `json:"tcfg,omitempty"`
+	TOps       []TOp    `json:"tops,omitempty"`
+}
+
+// TOp is one step of a transport-mode history.
+type TOp struct {
+	K    string `json:"k"` // call | kill | restart | sleep
+	A    int    `json:"a,omitempty"`
+	Form string `json:"form,omitempty"` // go | roundtrip | call | ctx | ping
+	Ms   int    `json:"ms,omitempty"`
+}
+
+func genTransport(t *rapid.T) Case {
+	c := Case{Mode: "transport", Enc: rapid.SampledFrom(kit.Encoders).Draw(t, "enc")}
+	c.TCfg = kit.TCfg{
+		Addrs:     rapid.IntRange(1, 2).Draw(t, "addrs"),
+		Max:       rapid.SampledFrom([]int{0, 1, 2}).Draw(t, "max"),
+		MaxIdle:   rapid.SampledFrom([]int{0, 1, 2}).Draw(t, "max_idle"),
+		KeepAlive: rapid.SampledFrom([]int{5, 50, 2000}).Draw(t, "keep_alive"),
+		IdleTO:    rapid.SampledFrom([]int{5, 50, 2000}).Draw(t, "idle_to"),
+		TickUS:    2000,
+		Enc:       c.Enc,
+	}
+	n := rapid.IntRange(3, 25).Draw(t, "nops")
+	for i := 0; i < n; i++ {
+		a := rapid.IntRange(0, c.TCfg.Addrs-1).Draw(t, "a")
+		k := rapid.IntRange(0, 9).Draw(t, "k")
+		switch {
+		case k <= 5:
+			c.TOps = append(c.TOps, TOp{K: "call", A: a, Form: rapid.SampledFrom([]string{"go", "go", "roundtrip", "roundtrip", "call", "ctx", "ping"}).Draw(t, "form")})
+		case k == 6:
+			c.TOps = append(c.TOps, TOp{K: "kill", A: a})
+		case k <= 8:
+			c.TOps = append(c.TOps, TOp{K: "restart", A: a})
+		default:
+			c.TOps = append(c.TOps, TOp{K: "sleep", Ms: rapid.SampledFrom([]int{1, 5, 25}).Draw(t, "ms")})
+		}
+	}
+	return c
 }
 
 func gen(t *rapid.T) Case {
+	if rapid.IntRange(0, 4).Draw(t, "transport_mode") == 0 {
+		return genTransport(t)
+	}
 	c := Case{
 		Enc:        rapid.SampledFrom(kit.Encoders).Draw(t, "enc"),
 		DirectIO:   rapid.Bool().Draw(t, "direct_io"),
@@ -83,7 +128,7 @@ type signal struct {
 type callState struct {
 	idx      int
 	form     string
-	call     *rpc.Call  // go / roundtrip
+	call     *rpc.Call // go / roundtrip
 	started  chan *rpc.Call
 	noGate   bool
 	args     []byte
@@ -112,8 +157,164 @@ func timing(clause, format string, a ...interface{}) kit.Outcome {
 
 func errText(id uint64) string { return fmt.Sprintf("handler-error-%d", id) }
 
+// runTransport: Go / RoundTrip (own Done channel with room for 4) and the blocking forms through a
+// real Transport over the in-memory network while servers are killed and restarted, so that calls
+// meet stale pooled connections. Every Done channel must carry its call exactly once, the call it
+// carries must be the one the caller holds, and its Error must not change afterwards.
+func runTransport(c Case) kit.Outcome {
+	if !c.TCfg.Valid() || len(c.TOps) == 0 || len(c.TOps) > 200 {
+		return kit.Outcome{Invalid: true}
+	}
+	for _, op := range c.TOps {
+		if op.A < 0 || op.A >= c.TCfg.Addrs || op.Ms < 0 || op.Ms > 1000 {
+			return kit.Outcome{Invalid: true}
+		}
+	}
+	w, err := kit.NewTWorld(c.TCfg)
+	if err != nil {
+		return kit.Undecided("%v", err)
+	}
+	defer w.Close()
+	var hist []string
+	h := func(format string, a ...interface{}) { hist = append(hist, fmt.Sprintf(format, a...)) }
+	fail := func(o kit.Outcome) kit.Outcome { o.History = hist; return o }
+	type done struct {
+		idx   int
+		form  string
+		call  *rpc.Call
+		ch    chan *rpc.Call
+		err   error
+		text  string
+		args  []byte
+		reply *[]byte
+	}
+	var dones []*done
+	recheck := func(when string) *kit.Outcome {
+		for _, d := range dones {
+			select {
+			case again := <-d.ch:
+				o := kit.Fail("signalled-twice", "call %d (%s through the Transport) was delivered on its Done channel a second time %s (second delivery is the same call: %v, Error now %v, first %v)", d.idx, d.form, when, again == d.call, again.Error, d.err)
+				return &o
+			default:
+			}
+			if d.call.Error != d.err || (d.err != nil && d.call.Error.Error() != d.text) {
+				o := kit.Fail("error-changed", "call %d (%s through the Transport): Error was %v when completion was signalled and is %v %s", d.idx, d.form, d.err, d.call.Error, when)
+				return &o
+			}
+		}
+		return nil
+	}
+	kills, stale, asyncCalls := 0, 0, 0
+	up := make([]bool, c.TCfg.Addrs)
+	for i := range up {
+		up[i] = true
+	}
+	restartedAfterKill := make([]bool, c.TCfg.Addrs)
+	for idx, op := range c.TOps {
+		switch op.K {
+		case "kill":
+			if up[op.A] {
+				w.Kill(op.A)
+				up[op.A] = false
+				kills++
+				h("kill %d", op.A)
+			}
+		case "restart":
+			if !up[op.A] {
+				if err := w.Restart(op.A); err != nil {
+					return fail(kit.Undecided("restart: %v", err))
+				}
+				up[op.A] = true
+				restartedAfterKill[op.A] = true
+				h("restart %d", op.A)
+			}
+		case "sleep":
+			time.Sleep(time.Duration(op.Ms) * time.Millisecond)
+		case "call":
+			id := w.NextID()
+			args := kit.MakePayload(id, kit.DirEcho, uint32(id), 48)
+			reply := new([]byte)
+			addr := w.Addrs[op.A]
+			if restartedAfterKill[op.A] {
+				stale++
+				restartedAfterKill[op.A] = false
+			}
+			switch op.Form {
+			case "go", "roundtrip":
+				ch := make(chan *rpc.Call, 4)
+				var call *rpc.Call
+				if op.Form == "go" {
+					call = w.Tr.Go(addr, "S.Echo", &args, reply, ch)
+				} else {
+					call = w.Tr.RoundTrip(addr, &rpc.Call{ServiceMethod: "S.Echo", Args: &args, Reply: reply, Done: ch})
+				}
+				asyncCalls++
+				select {
+				case got := <-ch:
+					if got != call {
+						return fail(kit.Fail("foreign-call-on-done", "call %d (%s through the Transport): the Done channel delivered a Call that is not the one returned to the caller (its Error: %v; the returned call's Error: %v)", idx, op.Form, got.Error, call.Error))
+					}
+				case <-time.After(bound):
+					return fail(timing("never-completed", "call %d (%s through the Transport) was not signalled within %v", idx, op.Form, bound))
+				}
+				d := &done{idx: idx, form: op.Form, call: call, ch: ch, err: call.Error, args: args, reply: reply}
+				if call.Error != nil {
+					d.text = call.Error.Error()
+				} else if !bytes.Equal(*reply, kit.Transform(args)) {
+					return fail(kit.Fail("wrong-reply", "call %d (%s through the Transport) completed without error but with a wrong reply", idx, op.Form))
+				}
+				h("%s to %d -> %v", op.Form, op.A, call.Error)
+				dones = append(dones, d)
+			case "call", "ctx", "ping":
+				rc := make(chan error, 1)
+				go func() {
+					switch op.Form {
+					case "call":
+						rc <- w.Tr.Call(addr, "S.Echo", &args, reply)
+					case "ctx":
+						rc <- w.Tr.CallWithContext(context.Background(), addr, "S.EchoCtx", &args, reply)
+					default:
+						rc <- w.Tr.Ping(addr)
+					}
+				}()
+				select {
+				case err := <-rc:
+					h("%s to %d -> %v", op.Form, op.A, err)
+				case <-time.After(bound):
+					return fail(timing("never-completed", "call %d (%s through the Transport) did not return within %v", idx, op.Form, bound))
+				}
+			default:
+				return kit.Outcome{Invalid: true}
+			}
+		default:
+			return kit.Outcome{Invalid: true}
+		}
+		if o := recheck(fmt.Sprintf("after step %d (%s)", idx, op.K)); o != nil {
+			return fail(*o)
+		}
+	}
+	time.Sleep(20 * time.Millisecond)
+	if o := recheck("20 ms after the end of the history"); o != nil {
+		return fail(*o)
+	}
+	out := kit.Outcome{Classes: []string{"transport", "enc=" + c.Enc}, Counters: map[string]int{"transport_async_calls": asyncCalls}}
+	if kills > 0 && asyncCalls >= 2 {
+		out.Nontrivial = true
+	}
+	if stale > 0 {
+		out.Classes = append(out.Classes, "call-meets-stale-pooled-connection")
+	}
+	return out
+}
+
 func run(c Case) kit.Outcome {
 	if kit.HeaderEncoder(c.Enc) == nil && c.Enc != "default" {
+		return kit.Outcome{Invalid: true}
+	}
+	if c.Mode == "transport" {
+		return runTransport(c)
+	}
+	if c.Mode != "" {
 		return kit.Outcome{Invalid: true}
 	}
 	if len(c.Ops) > 200 {
@@ -597,7 +798,7 @@ var _ = errors.New
 var prop = kit.Property[Case]{
 	ID:    "C02",
 	Level: "exploration",
-	Rule: "rapid-generated histories (1-25 steps) over one real Conn whose socket.Messages is a harness-owned gated frame link to a scripted server: start(Go|RoundTrip|Call|CallWithContext|Ping, shared or own Done channel with room), write succeeds/fails (the request is parked at the write gate, so the call is registered but unwritten), response / error response / duplicate response / unsolicited sequence number, peer EOF, read error, local Close; header encoder, direct IO and client pipelining drawn. Every receive on every Done channel is recorded at once with a deep copy of Error. Non-trivial: the history contains a write failure, or the connection ends while a call is registered but unwritten, or a duplicate/unsolicited response; distinct by SHA-1 of the case.",
+	Rule:  "rapid-generated histories (1-25 steps) over one real Conn whose socket.Messages is a harness-owned gated frame link to a scripted server: start(Go|RoundTrip|Call|CallWithContext|Ping, shared or own Done channel with room), write succeeds/fails (the request is parked at the write gate, so the call is registered but unwritten), response / error response / duplicate response / unsolicited sequence number, peer EOF, read error, local Close; header encoder, direct IO and client pipelining drawn. Every receive on every Done channel is recorded at once with a deep copy of Error. A fifth of the cases are transport histories instead: Go / RoundTrip (Done channel with room for 4) and the blocking forms through a real Transport over the in-memory network while 1-2 servers are killed and restarted, so that calls meet stale pooled connections; oracle: the Done channel carries the caller's own Call exactly once and its Error never changes afterwards. Non-trivial: the history contains a write failure, or the connection ends while a call is registered but unwritten, or a duplicate/unsolicited response; (transport) a kill and >= 2 asynchronous calls; distinct by SHA-1 of the case.",
 	Assumptions: []string{
 		"the frame link models what a TCP connection can do (delay, fail a write, end the stream); it reports write errors synchronously",
 		"absence of a second signal is asserted after a settle period (3 ms direct IO, 20 ms asynchronous); a later duplicate would be missed",
